@@ -332,8 +332,29 @@ def predict_eff(ctx):
             if isinstance(n, ast.Subscript) and isinstance(n.slice, ast.Slice) and \
                     norm_text(n.value) in [norm_text(call.args[i]) for i in (1, 2, 3)]:
                 slices.append((n, st))
+    # only loads count as "rows used"; a store into a kernel buffer after the kernel ran is
+    # a different matter (below)
+    stores = [(n, st) for n, st in slices if isinstance(n.ctx, ast.Store)]
+    slices = [(n, st) for n, st in slices if not isinstance(n.ctx, ast.Store)]
     ctx.ob('TAIL-SLICE', len(slices) == 3, None, 'new rows are read from all three buffers', f=f,
            key='three-slices', why='%d buffer slices used to build the new rows' % len(slices))
+    bufnames = [norm_text(call.args[i]) for i in (1, 2, 3)]
+    late = []
+    for st in after:
+        for n in ast.walk(st):
+            if isinstance(n, (ast.Assign, ast.AugAssign)):
+                for t in (n.targets if isinstance(n, ast.Assign) else [n.target]):
+                    b_ = t
+                    while isinstance(b_, ast.Subscript):
+                        b_ = b_.value
+                    if isinstance(t, ast.Subscript) and norm_text(b_) in bufnames:
+                        late.append((t, st))
+    ctx.ob('TAIL-SLICE', not late, None, 'the kernel buffers are not modified after the kernel ran',
+           f=f, node=(late[0][1] if late else st_call), key='no-write-back',
+           why='`%s` writes into a kernel buffer after the kernel has produced the rows: the next '
+               'call continues from values that differ (in the last bits) from the ones a single '
+               'call would have carried on with, so the trajectory depends on where the '
+               'increments were split' % (norm_text(late[0][1])[:90] if late else ''))
     for n, st in slices:
         lo = _lin(A, n.slice.lower, clo, st, atoms) if n.slice.lower else A.const(0)
         hi = _lin(A, n.slice.upper, clo, st, atoms) if n.slice.upper else None
